@@ -140,6 +140,9 @@ func Equal(a, b any) bool {
 // Diff returns a short description of the first difference between want and got ("" if equal).
 func Diff(path string, want, got any) string {
 	kw, kg := Kind(want), Kind(got)
+	if want == nil && IsEmptyDeep(got) {
+		return "" // null decoded into a non-pointer Go value is its zero value
+	}
 	if kw != kg {
 		return fmt.Sprintf("%s: want %s, got %s", path, short(want), short(got))
 	}
@@ -174,8 +177,8 @@ func Diff(path string, want, got any) string {
 			w, ok2 := y[k]
 			switch {
 			case !ok1:
-				if w == nil {
-					continue // absent and null are the same observation
+				if IsEmptyDeep(w) {
+					continue // absent, null and the zero value of a non-pointer field are the same observation
 				}
 				return fmt.Sprintf("%s.%s: unexpected %s", path, k, short(w))
 			case !ok2:
@@ -232,4 +235,35 @@ func Keys(m map[string]any) []string {
 	}
 	sort.Strings(k)
 	return k
+}
+
+// IsEmptyDeep reports whether v is null, false, 0, "", or an array/object whose members are all empty.
+func IsEmptyDeep(v any) bool {
+	switch x := v.(type) {
+	case nil:
+		return true
+	case bool:
+		return !x
+	case string:
+		return x == ""
+	case []any:
+		for _, e := range x {
+			if !IsEmptyDeep(e) {
+				return false
+			}
+		}
+		return true
+	case map[string]any:
+		for _, e := range x {
+			if !IsEmptyDeep(e) {
+				return false
+			}
+		}
+		return true
+	default:
+		if r, ok := Rat(v); ok {
+			return r.Sign() == 0
+		}
+	}
+	return false
 }
